@@ -178,6 +178,28 @@ def generate(tier, seed, ctx):
             hf = rng.choice([0, 1, 5, 3, 4])
             hist.append(call_str(hm, rng.randrange(2 ** 32), hlo, hhi, rng.choice([100, 777, 3000]), hf, params_of(rng, hf, hlo, hhi)))
         R.append("c14.hist %s %d %s" % (tgt, len(hist), " ".join(hist)))
+    # --- class D on the IDENTICAL region: the same method integrates another integrand there first (a grid adapted to a
+    #     peaked Gaussian must not leak into the next call); non-stratified Vegas mode (3-D < 31250 calls, 4..6-D) included
+    def peak(lo, hi, rel, wrel):
+        return [lo[i] + rel * (hi[i] - lo[i]) for i in range(len(lo))] + [wrel * min(hi[i] - lo[i] for i in range(len(lo)))]
+    same = []
+    for d, n in [(3, 20000), (3, 30000), (4, 10000), (5, 8000), (6, 6000), (2, 5000)] + ([(3, 10000), (4, 30000), (6, 20000), (1, 4000)] if th else []):
+        lo, hi = region_of(rng, d, rng.choice([0, 1]))
+        same.append((d, n, lo, hi, 0, [2.5], 4, peak(lo, hi, 0.3, 0.08)))                        # peaked Gaussian -> constant
+        same.append((d, n, lo, hi, 4, peak(lo, hi, 0.8, 0.05), 4, peak(lo, hi, 0.2, 0.05)))      # peak at 0.2 -> peak at 0.8
+    for d, n, lo, hi, fid, p, hfid, hp in same:
+        for method in METHODS:
+            tgt = call_str(method, rng.randrange(2 ** 32), lo, hi, n, fid, p)
+            hist = [call_str(method, rng.randrange(2 ** 32), lo, hi, n, hfid, hp)]
+            if rng.random() < 0.5:
+                hist.append(call_str(method, rng.randrange(2 ** 32), lo, hi, max(1000, n // 2), hfid, hp))
+            R.append("c14.hist %s %d %s" % (tgt, len(hist), " ".join(hist)))
+            if d in (2, 3):
+                lim = []
+                for i in range(d):
+                    lim += [lo[i], hi[i]]
+                R.append("c14.fhist%d %s %d %s %d %d %s 1 %d %d %d %s" % (d, method, rng.randrange(2 ** 32), " ".join(hx(v) for v in lim), n, fid, lst(p),
+                                                                          rng.randrange(2 ** 32), n, hfid, lst(hp)))
     # --- front ends
     for k in range(90 if th else 36):
         method = METHODS[k % 3]
@@ -295,6 +317,19 @@ def compare(rq, impl, model, ctx):
             return nf_
         if t[0] != t[2] or t[1] != t[3]:
             return [fail("prop", "Integrate_MC(%s): result depends on integrations run before it (same call and seed, fresh process vs after a history)" % c["method"],
+                         "fresh %s (%s calls) after history %s (%s calls)" % (t[0], t[1], t[2], t[3]))]
+        return []
+    if op in ("c14.fhist2", "c14.fhist3"):
+        name = "Integrate_%sD(%s)" % (op[-1], a[0])
+        ctx["nontrivial"].add((op, a[0]))
+        if tag(impl) != "ok":
+            return crash_fail(name, impl)
+        t = toks(impl)
+        nf_ = nonfinite_fail(name, fl(t[0]), fl(t[2]))
+        if nf_:
+            return nf_
+        if t[0] != t[2] or t[1] != t[3]:
+            return [fail("prop", name + ": result depends on integrations run before it (same call and seed, fresh process vs after a history on the same region)",
                          "fresh %s (%s calls) after history %s (%s calls)" % (t[0], t[1], t[2], t[3]))]
         return []
     if op in ("c14.front2", "c14.front3"):
